@@ -131,5 +131,51 @@ func TestVerifVHThresholds(t *testing.T) {
 			}
 		}
 		out.Emit(vhThrRow{Fn: "verifyHeader", N: n, C: c, K: least, Up: up, V: leastV})
+		// ---- the non-vbft (dbft/solo) branch: all n bookkeepers listed (their multi-address is the previous header's
+		// NextBookkeeper), k of them sign; probed once per n (C plays no role there), n <= 16 (multi-address size limit)
+		if c == 0 && n <= 16 {
+			keys := make([]keypair.PublicKey, 0, n)
+			for i := 1; i <= n; i++ {
+				keys = append(keys, accts[i].PublicKey)
+			}
+			addr, err := types.AddressFromBookkeepers(keys)
+			if err == nil {
+				config.DefConfig.Genesis.ConsensusType = "dbft"
+				g0 := &types.Header{Height: 0, Timestamp: 100, NextBookkeeper: addr}
+				d1 := &types.Header{Height: 1, Timestamp: 101, PrevBlockHash: g0.Hash()}
+				dh := d1.Hash()
+				st2 := &LedgerStoreImp{headerCache: map[common.Uint256]*types.Header{g0.Hash(): g0}, headerIndexCache: NewHeaderIndexCache(),
+					vbftPeerInfoMap: map[uint32]map[string]uint32{}}
+				st2.headerIndexCache.setHeaderIndex(0, 0, g0.Hash())
+				dsigs := make([][]byte, 0, n)
+				for i := 1; i <= n; i++ {
+					sg, err := signature.Sign(accts[i], dh[:])
+					vhMust(err)
+					dsigs = append(dsigs, sg)
+				}
+				tryD := func(k int) bool {
+					hdr := *d1
+					hdr.Bookkeepers = keys
+					hdr.SigData = dsigs[:k]
+					return st2.verifyHeader(&hdr) == nil
+				}
+				dl, dup := -1, 1
+				for k := 0; k <= n; k++ {
+					if tryD(k) {
+						dl = k
+						break
+					}
+				}
+				if dl >= 0 {
+					for _, k := range []int{dl + 1, (dl + n) / 2, n} {
+						if k > dl && k <= n && !tryD(k) {
+							dup = 0
+						}
+					}
+				}
+				config.DefConfig.Genesis.ConsensusType = "vbft"
+				out.Emit(vhThrRow{Fn: "verifyHeaderDbft", N: n, C: 0, K: dl, Up: dup, V: dl})
+			}
+		}
 	}
 }
